@@ -4,6 +4,7 @@ import FordModel.ScopeSpec
 import FordModel.ScopeBlock
 import FordModel.ScopeBind
 import FordModel.ScopeSub
+import FordModel.ScopeAccess
 namespace Ford
 open Proto Scope
 
@@ -162,8 +163,17 @@ def showReg (reg : BlockReg) (us : List (UKind × BScope)) : List Str :=
     its specifics with the parent type's generic binding (code as found) -/
 def sharedOf (s : Str) : Bool := (s.drop 3).head? == some '1'
 
-/-- type records: ( "T" ent (slot | "-") n (name ent)* m (slot name)* )* ; the parent of a type is
-    what the model put into its `extends` slot -/
+def takeNats : Nat → List Str → List Nat → Option (List Nat × List Str)
+  | 0, r, acc => some (acc.reverse, r)
+  | n + 1, x :: r, acc => takeNats n r (natOf x :: acc)
+  | _ + 1, [], _ => none
+
+/-- seventh character of the variant: 1 = an extension does not inherit the PRIVATE bindings of its
+    parent type (code as found) -/
+def dropOf (s : Str) : Bool := (s.drop 6).head? == some '1'
+
+/-- type records: ( "T" ent (slot | "-") n (name ent)* m (slot name)* k (private binding ent)* )* ; the
+    parent of a type is what the model put into its `extends` slot -/
 def parseTypes (res : Res) : Nat → List Str → List TypeRec → Option (List TypeRec)
   | 0, _, _ => none
   | _ + 1, [], acc => some acc.reverse
@@ -172,12 +182,15 @@ def parseTypes (res : Res) : Nat → List Str → List TypeRec → Option (List 
       match takePairs (natOf n) r [] with
       | some (own, m :: r2) =>
         match takeCells (natOf m) r2 [] with
-        | some (gens, r3) =>
-          let parent := if x == "-".toList then none else resGet res (natOf x)
-          -- `own` in declaration order; a table has the most recent write at its head
-          parseTypes res fuel r3
-            (⟨natOf e, parent, (own.map fun p => (lower p.1, natOf p.2)).reverse, gens⟩ :: acc)
-        | none => none
+        | some (gens, k :: r3) =>
+          match takeNats (natOf k) r3 [] with
+          | some (privs, r4) =>
+            let parent := if x == "-".toList then none else resGet res (natOf x)
+            -- `own` in declaration order; a table has the most recent write at its head
+            parseTypes res fuel r4
+              (⟨natOf e, parent, (own.map fun p => (lower p.1, natOf p.2)).reverse, gens, privs⟩ :: acc)
+          | none => none
+        | _ => none
       | _ => none
     else none
   | _ + 1, _, _ => none
@@ -190,11 +203,6 @@ def splitTypes (toks : List Str) : List Str × List Str × List Str :=
   let p := toks.span (fun t => !(t == "|".toList))
   let q := (p.2.drop 1).span (fun t => !(t == "|".toList))
   (p.1, q.1, q.2.drop 1)
-
-def takeNats : Nat → List Str → List Nat → Option (List Nat × List Str)
-  | 0, r, acc => some (acc.reverse, r)
-  | n + 1, x :: r, acc => takeNats n r (natOf x :: acc)
-  | _ + 1, [], _ => none
 
 /-- "I" n ent* "O" m ent* : the interface-body entities and the project's list order of the submodules -/
 def parseSubSection : List Str → List Ent × List Ent
@@ -230,7 +238,7 @@ namespace C07Wire
 def runVariant (v : Str) (us : List (UKind × BScope)) (tt : List Str) (pairable order : List Ent) : Option (List Str) :=
   let res := corrProjectS (variantOf v) (svOf v) pairable order PState.empty (flattenUnits (regOf v) us)
   match parseTypes res (tt.length + 1) tt [] with
-  | some rs => some (showRes res ++ showCells (genericRes (sharedOf v) rs) ++ showReg (regOf v) us)
+  | some rs => some (showRes res ++ showCells (genericResD (dropOf v) (sharedOf v) rs) ++ showReg (regOf v) us)
   | none => none
 
 def runSpec (us : List (UKind × BScope)) (tt : List Str) (pairable : List Ent) : Option (List Str) :=
@@ -248,6 +256,76 @@ def runMany (us : List (UKind × BScope)) (tt : List Str) (pairable order : List
     | _, _ => none
 
 end C07Wire
+
+/-! ### accessibility stream (`c07.access`) -/
+namespace C07Access
+open ScopeAccess C07Wire
+
+def permOf (s : Str) : Perm := if s == "v".toList then .priv else .pub
+def attrOf (s : Str) : Option Perm :=
+  if s == "v".toList then some .priv else if s == "p".toList then some .pub else none
+def dkOf (s : Str) : DK :=
+  if s == "t".toList then .ty else if s == "g".toList then .gi else if s == "a".toList then .ab else .pr
+
+def takeStmts : Nat → List Str → List (Perm × Str) → Option (List (Perm × Str) × List Str)
+  | 0, r, acc => some (acc.reverse, r)
+  | n + 1, p :: nm :: r, acc => takeStmts n r ((permOf p, nm) :: acc)
+  | _ + 1, _, _ => none
+
+/-- body of a module: ( U ... | D kind name ent attr | X id kind name )* ")" -/
+def parseMod : Nat → List Str → AModule → Option (AModule × List Str)
+  | 0, _, _ => none
+  | fuel + 1, toks, m =>
+    match toks with
+    | [] => none
+    | t :: r =>
+      if t == ")".toList then
+        some ({ m with uses := m.uses.reverse, decls := m.decls.reverse, slots := m.slots.reverse }, r)
+      else if t == "U".toList then
+        match r with
+        | md :: fl :: n :: r2 =>
+          match takePairs (natOf n) r2 [] with
+          | some (ps, r3) => parseMod fuel r3 { m with uses := ⟨md, fl == "o".toList, ps⟩ :: m.uses }
+          | none => none
+        | _ => none
+      else if t == "D".toList then
+        match r with
+        | k :: nm :: e :: a :: r2 => parseMod fuel r2 { m with decls := ⟨dkOf k, nm, natOf e, attrOf a⟩ :: m.decls }
+        | _ => none
+      else if t == "X".toList then
+        match r with
+        | i :: k :: nm :: r2 => parseMod fuel r2 { m with slots := ⟨natOf i, skOf k, .early, nm⟩ :: m.slots }
+        | _ => none
+      else none
+
+/-- project := ( "M" name dflt nstmts (perm name)* body )* -/
+def parseMods : Nat → List Str → List AModule → Option (List AModule)
+  | 0, _, _ => none
+  | _ + 1, [], acc => some acc.reverse
+  | fuel + 1, t :: r, acc =>
+    if t == "M".toList then
+      match r with
+      | nm :: df :: n :: r2 =>
+        match takeStmts (natOf n) r2 [] with
+        | some (st, r3) =>
+          match parseMod fuel r3 ⟨nm, permOf df, st, [], [], []⟩ with
+          | some (m, r4) => parseMods fuel r4 (m :: acc)
+          | none => none
+        | none => none
+      | _ => none
+    else none
+
+def showTable (tag : Str) (tb : Scope.Table) : List Str :=
+  (Scope.dictItems tb).map fun ke => tag ++ [':'] ++ ke.1 ++ ['='] ++ showNat ke.2
+
+/-- the public tables of every module: `e<k>p:<name>=<ent>` ... -/
+def showExports : Nat → List Scope.Exports → List Str
+  | _, [] => []
+  | k, x :: r =>
+    showTable (['e'] ++ showNat k ++ ['p']) x.p ++ showTable (['e'] ++ showNat k ++ ['a']) x.a ++
+      showTable (['e'] ++ showNat k ++ ['t']) x.t ++ showExports (k + 1) r
+
+end C07Access
 
 open C07Wire in
 def dispatchC07 : List Str → Option (List Str)
@@ -278,7 +356,7 @@ def dispatchC07 : List Str → Option (List Str)
           let res := corrProjectS (variantOf v) (svOf v) pairable order PState.empty (flattenUnits (regOf v) us)
           match parseTypes res (tt.length + 1) tt [] with
           | some rs =>
-            some ("ok".toList :: (showRes res ++ showCells (genericRes (sharedOf v) rs) ++ showReg (regOf v) us))
+            some ("ok".toList :: (showRes res ++ showCells (genericResD (dropOf v) (sharedOf v) rs) ++ showReg (regOf v) us))
           | none => some ["bad-types".toList]
         | none => some ["bad-project".toList]
       | _ => some ["bad-request".toList]
@@ -294,6 +372,19 @@ def dispatchC07 : List Str → Option (List Str)
           | some rs => some ("ok".toList :: (showRes res ++ showCells (specGenericRes [] rs)))
           | none => some ["bad-types".toList]
         | none => some ["bad-project".toList]
+    else if cmd == "c07.access".toList then
+      -- c07.access <s = specification | 0|1 = the constructor gets its type's accessibility before the public tables are derived> <tokens>
+      match args with
+      | v :: toks =>
+        match C07Access.parseMods (toks.length + 1) toks [] with
+        | some ms =>
+          if v == "s".toList then some ("ok".toList :: showRes (ScopeAccess.specProjectA [] ms))
+          else
+            let av : ScopeAccess.AVariant := ⟨v == "1".toList⟩
+            some ("ok".toList :: (showRes (ScopeAccess.corrProjectA av [] ms) ++
+              C07Access.showExports 0 (ScopeAccess.exportsProjectA av [] ms)))
+        | none => some ["bad-project".toList]
+      | _ => some ["bad-request".toList]
     else none
   | [] => none
 
